@@ -457,6 +457,8 @@ def run(ctx):
     else:
         items = _hist.histories(3, 6)
         bound = "connected DAGs <= 3 revisions x 6 tree states"
+    stride = int(os.environ.get("VERIF_DEV_STRIDE", "1") or 1)     # development aid only: every k-th history
+    items = items[::stride]
     # determinism audit: the first histories twice, observation logs must be equal
     audit = [h for h in items if len(h[0]) == 3][:3]
     for h in audit:
@@ -497,5 +499,6 @@ def run(ctx):
         "comparisons": cnt,
         "distinct_root_tree_shas": len(acc.outcomes | acc1.outcomes),
         "samples": acc.samples[:3],
-        "exhaustive": True,
+        "exhaustive": stride == 1,
+        **({"capped": "VERIF_DEV_STRIDE=%d: every %d-th history only" % (stride, stride)} if stride > 1 else {}),
     }
